@@ -107,7 +107,21 @@ RedimCases == {c @@ [prev |-> p] : c \in {d \in EwCases : d.sb = Scalar /\ d.sa 
 \* another order; the value that belongs to a name does not change
 Orders == {<<a, b, r>> : a \in {"fwd", "rev"}, b \in {"fwd", "rev"}, r \in {"fwd", "rev"}} \ {<<"fwd", "fwd", "fwd">>}
 OrderCases == {c @@ [orders |-> o] : c \in {d \in EwCases : d.sa = d.sb /\ d.sa # Scalar}, o \in Orders}
-Cases == EwCases \cup DotCases \cup AggCases
+\* nested element-wise expressions over arrays of one shape: A op (B op2 A) and (A op2 B) op A - the inner expression is
+\* one operand of the outer one, entry by entry
+ArrShapes == Shapes \ {Scalar}
+NestCases == {[form |-> "ew2", op |-> o, op2 |-> o2, pos |-> pos, sa |-> sh, sb |-> sh, A |-> ToJson(Operand(sh, "A")), B |-> ToJson(Operand(sh, "B")),
+               res |-> ToJson(IF pos = "R" THEN EW(o, sh, sh, Operand(sh, "A"), EW(o2, sh, sh, Operand(sh, "B"), Operand(sh, "A")))
+                                         ELSE EW(o, sh, sh, EW(o2, sh, sh, Operand(sh, "A"), Operand(sh, "B")), Operand(sh, "A")))]
+              : o \in {"+", "-", "*"}, o2 \in {"+", "-", "*"}, pos \in {"L", "R"}, sh \in ArrShapes}
+\* an aggregate is a function of the array's CURRENT entries: after the aggregate was defined, entry <<1>> / <<1,1>> of the array is
+\* given the new value 9 (edit = TRUE), and the aggregate is read again
+Edited(sh, X) == IF IsVec(sh) THEN [j \in 1..sh[2] |-> IF j = 1 THEN R(9) ELSE X[j]]
+                 ELSE [i \in 1..sh[1] |-> [j \in 1..sh[2] |-> IF i = 1 /\ j = 1 THEN R(9) ELSE X[i][j]]]
+AggEditCases == {[form |-> "aggedit", op |-> name, sa |-> sh, sb |-> Scalar, A |-> ToJson(Operand(sh, "A")), B |-> ToJson(R(2)),
+                  res |-> ToJson(Agg(name, sh, Edited(sh, Operand(sh, "A")), 2))]
+                 : name \in {"sum", "prod", "mean", "median", "variance", "rank"}, sh \in ArrShapes}
+Cases == EwCases \cup DotCases \cup AggCases \cup NestCases \cup AggEditCases
          \cup {c \in RedimCases : c.prev \in Smaller(c.sa)} \cup OrderCases
 
 Init == case \in Cases /\ done = FALSE
